@@ -1,5 +1,5 @@
 """Canonical spellings, applied to the parsed trees before anything is analysed (nothing is executed; positions are kept):
- 1. `x = x + e` / `x = x - e` (same simple target on both sides)  ->  `x += e` / `x -= e`
+ 1. `x = x + e` / `x = x - e` / `x = x >> e` ... (same simple target on both sides)  ->  `x += e` / `x -= e` / `x >>= e` ...
  2. a condition that is given a name in the statement right in front of its ONLY use (`done = d.is_finished()` / `if done and ...:`) is put back
     where it is used.
  3. a dispatch through a module-level dictionary with constant keys (`elif k in TABLE: f(TABLE[k])`) is written out as the chain of comparisons it
@@ -25,10 +25,26 @@ def _boolish(v: ast.AST) -> bool:
         isinstance(v, ast.Call) and isinstance(v.func, ast.Attribute) and v.func.attr.startswith(("is_", "has_", "needs_", "check_")))
 
 
+class _Chain(ast.NodeTransformer):
+    """`len(x) > 0 and len(x) < b` (or `0 < len(x) and len(x) < b`)  ->  `0 < len(x) < b`"""
+    def visit_BoolOp(self, n: ast.BoolOp):
+        self.generic_visit(n)
+        if isinstance(n.op, ast.And) and len(n.values) == 2 and all(isinstance(v, ast.Compare) and len(v.ops) == 1 for v in n.values):
+            a, b = n.values
+            lo = None
+            if isinstance(a.ops[0], ast.Gt) and isinstance(a.comparators[0], ast.Constant):
+                lo, x = a.comparators[0], a.left
+            elif isinstance(a.ops[0], ast.Lt) and isinstance(a.left, ast.Constant):
+                lo, x = a.left, a.comparators[0]
+            if lo is not None and isinstance(b.ops[0], ast.Lt) and ast.dump(b.left) == ast.dump(x) and isinstance(x, ast.Call) and isinstance(x.func, ast.Name) and x.func.id == "len":
+                return ast.copy_location(ast.Compare(left=lo, ops=[ast.Lt(), ast.Lt()], comparators=[x, b.comparators[0]]), n)
+        return n
+
+
 class _Aug(ast.NodeTransformer):
     def visit_Assign(self, n: ast.Assign):
         self.generic_visit(n)
-        if len(n.targets) == 1 and isinstance(n.targets[0], (ast.Name, ast.Attribute)) and isinstance(n.value, ast.BinOp) and isinstance(n.value.op, (ast.Add, ast.Sub)) \
+        if len(n.targets) == 1 and isinstance(n.targets[0], (ast.Name, ast.Attribute)) and isinstance(n.value, ast.BinOp) and isinstance(n.value.op, (ast.Add, ast.Sub, ast.RShift, ast.LShift, ast.BitOr, ast.BitAnd, ast.Mult, ast.FloorDiv)) \
                 and _same_target(n.targets[0], n.value.left) and isinstance(n.value.right, (ast.Constant, ast.Name, ast.Call, ast.Attribute)):
             return ast.copy_location(ast.AugAssign(target=n.targets[0], op=n.value.op, value=n.value.right), n)
         return n
@@ -112,6 +128,7 @@ def _expand_dict_dispatch(tree: ast.Module) -> None:
 
 def canonicalise(tree: ast.Module) -> None:
     _Aug().visit(tree)
+    _Chain().visit(tree)
     _expand_dict_dispatch(tree)
     for fn in [x for x in ast.walk(tree) if isinstance(x, (ast.FunctionDef, ast.AsyncFunctionDef))]:
         _inline_named_conditions(fn)
